@@ -352,6 +352,9 @@ func c01allFuncs(m *Module) []*Func {
 					if !ok || fd.Body == nil || fd.Recv == nil || fd.Name.Name != "init" {
 						continue
 					}
+					if m.Func(funcKey(p.Name, fd)) != nil {
+						continue // the loader indexes methods named init itself now
+					}
 					obj, _ := p.TypesInfo.Defs[fd.Name].(*types.Func)
 					if obj == nil {
 						continue
